@@ -30,8 +30,8 @@ class Loop:
 
 class Contract:
   def __init__(s,key,view,cases,modifies=(),returns=None,source_of_post='',loops=None,ghost=None,property_ids=(),trusted=False,
-               sample=None, build=None, note='', bounded=None, standin_inputs=None, refute_pins=None, call_effect=None, native=None, ghost_hooks=None, abstract_lists=(), ghost_init=None, exit_lemmas=(), native_post=None, json_args=None, opaque_methods=None, pure_methods=None, class_predicates=None, list_elems=None, region=None, opaque_attrs=False, pure_functions=()):
-    s.region=region; s.opaque_attrs=opaque_attrs; s.pure_functions=tuple(pure_functions); s.list_elems=list_elems or {}; s.native_post=native_post; s.json_args=json_args; s.opaque_methods=opaque_methods or {}; s.pure_methods=pure_methods or {}; s.class_predicates=class_predicates or {}
+               sample=None, build=None, note='', bounded=None, standin_inputs=None, refute_pins=None, call_effect=None, native=None, ghost_hooks=None, abstract_lists=(), ghost_init=None, exit_lemmas=(), native_post=None, json_args=None, opaque_methods=None, pure_methods=None, class_predicates=None, list_elems=None, region=None, opaque_attrs=False, pure_functions=(), post_locals=False):
+    s.post_locals=post_locals; s.region=region; s.opaque_attrs=opaque_attrs; s.pure_functions=tuple(pure_functions); s.list_elems=list_elems or {}; s.native_post=native_post; s.json_args=json_args; s.opaque_methods=opaque_methods or {}; s.pure_methods=pure_methods or {}; s.class_predicates=class_predicates or {}
     s.key=key; s.file,s.qual=key.split('::'); s.view=view; s.cases=cases; s.modifies=list(modifies)
     s.returns=returns; s.source_of_post=source_of_post; s.loops=loops or {}; s.ghost=ghost or {}
     s.property_ids=tuple(property_ids); s.trusted=trusted; s.sample=sample; s.build=build; s.note=note
